@@ -75,6 +75,7 @@ const (
 	SerializationAttributeNotFound        = `PCORE_SERIALIZATION_ATTRIBUTE_NOT_FOUND`
 	SerializationNotAttribute             = `PCORE_SERIALIZATION_NOT_ATTRIBUTE`
 	SerializationBadKind                  = `PCORE_SERIALIZATION_BAD_KIND`
+	SerializationDuplicateAttribute       = `PCORE_SERIALIZATION_DUPLICATE_ATTRIBUTE`
 	SerializationDefaultConvertedToString = `PCORE_SERIALIZATION_DEFAULT_CONVERTED_TO_STRING`
 	SerializationRequiredAfterOptional    = `PCORE_SERIALIZATION_REQUIRED_AFTER_OPTIONAL`
 	SerializationUnknownConvertedToString = `PCORE_SERIALIZATION_UNKNOWN_CONVERTED_TO_STRING`
@@ -256,6 +257,8 @@ func init() {
 	issue.Hard(SerializationDefaultConvertedToString, `%{path} contains the special value default. It will be converted to the String 'default'`)
 
 	issue.Hard2(SerializationUnknownConvertedToString, `%{path} contains %{klass} value. It will be converted to the String '%{value}'`, issue.HF{`klass`: issue.AnOrA})
+
+	issue.Hard(SerializationDuplicateAttribute, `%{label} serialization lists %{attribute} more than once`)
 
 	issue.Hard(SerializationRequiredAfterOptional, `%{label} serialization is referencing required %{required} after optional %{optional}. Optional attributes must be last`)
 
